@@ -332,6 +332,10 @@ def apply_callable(I: Interp, callee, args, kwargs, fr, node=None):
     if isinstance(callee, PLog):
         return const(None)
     if isinstance(callee, PBound):
+        if callee.selfv is None and callee.finfo.cls is not None and not callee.finfo.is_staticmethod and not callee.finfo.is_classmethod \
+                and args and isinstance(args[0], SV):
+            # unbound method with an explicit receiver: Class.method(obj, ...)
+            return call_function(I, callee.finfo, args[0], list(args[1:]), kwargs, fr, node, callee.exact)
         return call_function(I, callee.finfo, callee.selfv, args, kwargs, fr, node, callee.exact)
     if isinstance(callee, PFunc):
         return call_closure(I, callee, args, kwargs, fr, node)
